@@ -169,6 +169,14 @@ func (fr *Frame) applyContract(st *State, call ssa.CallInstruction, fn *ssa.Func
 }
 
 func (vc *VC) recordCallSyms(key string, sig *types.Signature, res []Term) {
+	if !strings.Contains(key, "#") {
+		// also addressable by ordinal: key#1, key#2, ...
+		if vc.callCount == nil {
+			vc.callCount = map[string]int{}
+		}
+		vc.callCount[key]++
+		vc.recordCallSyms(fmt.Sprintf("%s#%d", key, vc.callCount[key]), sig, res)
+	}
 	if _, ok := vc.callSyms[key]; ok {
 		return // first call only
 	}
